@@ -24,7 +24,7 @@ def run(env, res):
     res.rule = ('directed families (expectation from the property text) first, then seeded random pipelines '
                 '(1-3 pipelines, 1-4 groups, 0-4 steps per group, decorators with p~0.25 each); a case is '
                 'non-trivial when the model accepts it and it terminates; distinct by canonical program text')
-    directed = [('c05', fo.c05_family, env.n(160, 100000))]
+    directed = [('c05', fo.c05_family, env.n(400, 100000))]
     flowcheck.run_streams(env, res, directed, env.n(500, 20000), weights={'fail': 3, 'set': 2},
                           random_monitor=flowcheck.monitor_all)
 
